@@ -139,6 +139,13 @@ def replay_recip(chk, rs, c, variants):
                 cases.append((" [the same request with halo %g right after halo %g]" % (h2, kw["halo"]), gc3, gf3, dc3, df3))
             except Exception as e:
                 chk.drift_note("recip (second halo): %s raised %r" % (_cfg_key(c), e))
+        # the same identity for a source of very small magnitude (the forward run is linear: no absolute threshold may enter)
+        if not os.environ.get("VERIF_NOMINAL"):
+            try:
+                _, dc4, df4 = rs.solve3(q * 1e-11, kw, footprint=False, meas_pt=(0.0, 0.0))
+                cases.append((" [forward run of the source x 1e-11]", gconc, gflx, dc4 / 1e-11, df4 / 1e-11))
+            except Exception as e:
+                chk.drift_note("recip (small source): %s raised %r" % (_cfg_key(c), e))
         # the same identity on lengths that are not exactly representable: the tower still sits on node (jm, im), but
         # coordinate / cell size need not evaluate to the integer in floating point (0.3 / 0.1)
         # (not in the faithfulness test: the pinned-switch model speaks about the nominal geometry, and the pinned code's
